@@ -127,6 +127,7 @@ struct env_thr_ops {
 	int (*spin_lock)(pthread_spinlock_t *);
 	int (*spin_unlock)(pthread_spinlock_t *);
 	void (*lock_reinit)(void *);
+	void (*sigmask_changed)(const sigset_t *now);
 	int (*create)(pthread_t *, const pthread_attr_t *, void *(*)(void *), void *);
 	int (*join)(pthread_t, void **);
 	int (*detach)(pthread_t);
